@@ -56,6 +56,11 @@ func (e *ErrBadResponse) Error() string {
 type response struct {
 	r    message
 	done chan error
+
+	// receiving is set once an incoming frame has been matched to this
+	// response: the receiver is going to complete it, so it can no longer
+	// be withdrawn. Protected by Client.pendingMu.
+	receiving bool
 }
 
 var responsePool = sync.Pool{
@@ -226,6 +231,9 @@ func (c *Client) handleOne() {
 	t, r, err := recv(c.log, c.conn, c.messageSize, func(t tag, mt msgType) (message, error) {
 		c.pendingMu.Lock()
 		resp := c.pending[t]
+		if resp != nil {
+			resp.receiving = true
+		}
 		c.pendingMu.Unlock()
 
 		// Not expecting this message?
@@ -315,6 +323,7 @@ func (c *Client) sendRecv(tm message, rm message) error {
 	defer responsePool.Put(resp)
 	resp.r = rm
 	c.pendingMu.Lock()
+	resp.receiving = false
 	c.pending[tag(t)] = resp
 	c.pendingMu.Unlock()
 
@@ -328,16 +337,18 @@ func (c *Client) sendRecv(tm message, rm message) error {
 		// gone back to the pool, and whoever picks it up next would see
 		// a completion that is not theirs.
 		c.pendingMu.Lock()
-		if c.pending[tag(t)] == resp {
+		withdrawn := c.pending[tag(t)] == resp && !resp.receiving
+		if withdrawn {
 			delete(c.pending, tag(t))
-		} else {
-			// A receive error got there first and completed it already.
-			select {
-			case <-resp.done:
-			default:
-			}
 		}
 		c.pendingMu.Unlock()
+		if !withdrawn {
+			// A receiver has matched a frame to this response, or a
+			// receive error has completed it: exactly one completion
+			// is on its way. Take it, so that it does not outlive
+			// this call.
+			<-resp.done
+		}
 		return fmt.Errorf("send: %w", err)
 	}
 
